@@ -37,6 +37,8 @@ STRUCTS = {
     "chain4_u": {"vars": {"v1": 2, "v2": 2, "v3": 2, "v4": 2},
                  "cons": [["c12", ["v1", "v2"]], ["c23", ["v2", "v3"]], ["c34", ["v3", "v4"]],
                           ["u2", ["v2"]], ["u4", ["v4"]]]},
+    # two constraints over the same pair, own cost tables on both variables
+    "pair_dbl_vcost2": {"vars": {"x": 2, "y": 2}, "cons": [["c0", ["x", "y"]], ["c1", ["x", "y"]]], "varcosts": ["x", "y"]},
     "pair_vcost2": {"vars": {"x": 2, "y": 2}, "cons": [["c0", ["x", "y"]]], "varcosts": ["x", "y"]},
     # scopes listed descendant-first / in reverse lexical order (dimension order differs from the tree order)
     "chain3_rev":  {"vars": {"x": 2, "y": 2, "z": 2}, "cons": [["c0", ["y", "x"]], ["c1", ["z", "y"]]]},
